@@ -409,8 +409,10 @@ _UNARY = {
 }
 
 
-def evaluate(term, env, dom, memo=None):
-    """Abstract value of an ir.normal Term under env: symbol name -> IV.  Iterative post-order (DAGs can be deep)."""
+def evaluate(term, env, dom, memo=None, summaries=None):
+    """Abstract value of an ir.normal Term under env: symbol name -> IV.  Iterative post-order (DAGs can be deep).
+    summaries: optional {term: spec} of recognised error-free-transformation sub-terms (sa/eft_terms.py) whose enclosure by
+    contract is intersected with the generic one."""
     memo = {} if memo is None else memo
     stack = [term]
     while stack:
@@ -432,7 +434,12 @@ def evaluate(term, env, dom, memo=None):
             stack.extend(pending)
             continue
         a = [memo[x] for x in t[1:]]
-        memo[t] = _apply(k, a, dom)
+        v = _apply(k, a, dom)
+        if summaries and t in summaries and isinstance(v, IV):
+            from .eft_terms import enclose
+
+            v = enclose(summaries[t], memo.__getitem__, dom, lambda: v)
+        memo[t] = v
         stack.pop()
     return memo[term]
 
@@ -805,8 +812,10 @@ class ErrDomain(Domain):
         lo = A.lo.astype(np.longdouble)
         with np.errstate(all="ignore"):
             d = np.where(lo >= 0, np.longdouble(1.0), 1.0 / np.maximum(1.0 + lo, np.longdouble(1e-4000)))
+            # the derivative 1 / (1 + a) is decreasing: its supremum over the interval is taken at the lower end
+            dd = 1.0 / np.maximum(1.0 + lo, np.longdouble(1e-4000))
         # |a / ((1 + a) log1p(a))| <= 1 for a >= 0 and <= 1 / (1 + a) for -1 < a < 0
-        return self._lib(A, out, d, d)
+        return self._lib(A, out, d, dd)
 
     def exp(self, A):
         out = super().exp(A)
